@@ -50,10 +50,25 @@ def contract(cell, ir):
     return out
 
 
+def marker_replay(_name):
+    """The marker-set lemma's claim on the real emitter / parser: numeric defaults whose repr uses + - . e come back as numbers"""
+    for dflt in (1e16, -2.5e-07, 1e-05, 3, -3, 2.5, 1.5e+300):
+        for cell in (("google", True, True), ("rest", True, True), ("numpydoc", True, True)):
+            ir = domain.make_ir((("float" if isinstance(dflt, float) else "int", dflt, "the {name}"),))
+            try:
+                r = contract(cell, ir)
+            except Exception as ex:
+                r = [(("raises",), "%s: %s" % (type(ex).__name__, ex), None)]
+            if r:
+                return {"cell": list(cell), "ir": json.loads(json.dumps(ir)), "what": r[0][1][:300]}
+    return None
+
+
 def main(tier, write_baseline=False):
     run = Run("C01", tier, "other", checker_cmd=common.checker_cmd("C01", tier))
     run.trusted_base.update(["cddvc E1 (string VCs with Python slice/index semantics)", "z3 5.1"])
     refuted = e1.run_contracts(run, "contracts.C01")
+    refuted, rule_inputs = run.confirm_or_undecide(refuted, marker_replay)
     if write_baseline:
         common.write_baseline("C01", [n for n, o in run.obligations.items() if o["status"] == "proved"])
     compare_baseline(run, set(run.obligations))
@@ -92,21 +107,7 @@ def main(tier, write_baseline=False):
         if o["name"] in seen:
             continue
         seen.add(o["name"])
-        fi = None
-        if "/structural/" in o["name"]:
-            # the marker-set lemma: replay a numeric default whose repr contains an offending character on the real emitter / parser
-            for dflt in (1e16, -2.5e-07, 3, -3, 2.5):
-                for cell in (("google", True, True), ("rest", True, True), ("numpydoc", True, True)):
-                    ir = domain.make_ir((("float" if isinstance(dflt, float) else "int", dflt, "the {name}"),))
-                    try:
-                        r = contract(cell, ir)
-                    except Exception as ex:
-                        r = [(("raises",), "%s: %s" % (type(ex).__name__, ex), None)]
-                    if r:
-                        fi = {"cell": list(cell), "ir": json.loads(json.dumps(ir)), "what": r[0][1][:300]}
-                        break
-                if fi:
-                    break
+        fi = rule_inputs.get(o["name"])
         run.violation(o["name"], "obligation refuted by %s on path %s%s" % (o["backend"], " ".join(o["trace"]), (": " + "; ".join(o.get("notes") or [])) if o.get("notes") else ""),
                       failing_input=fi, solver_output={"model": o["model"], "smt2": (o["smt2"] or "")[:4000], "notes": o.get("notes")})
     M.report(run, "C01/bounded", fails)
